@@ -335,8 +335,20 @@ func runC12(tier string, shard, shards int) result {
 	// sequential entry points: Bytes and String equal the plain call (no scheduling involved)
 	if shard == 0 {
 		n := 0
+		// results of Bytes stay the caller's: all of them are kept and compared again after every other call was made
+		shared := newRegistry()
+		type keptT struct {
+			name string
+			b    []byte
+			want string
+		}
+		var kept []keptT
 		for _, in := range append(append([]input{}, c12inputs...), c12short...) {
 			r := reference(in.mt, []byte(in.in))
+			if kb, kerr := shared.Bytes(in.mt, []byte(in.in)); kerr == nil {
+				kept = append(kept, keptT{in.mt + " " + in.in, kb, string(kb)})
+				shared.String(in.mt, in.in)
+			}
 			m := newRegistry()
 			b, err := m.Bytes(in.mt, []byte(in.in))
 			s, err2 := m.String(in.mt, in.in)
@@ -347,6 +359,12 @@ func runC12(tier string, shard, shards int) result {
 			}
 			if !bytes.Equal(b, wantB) || errStr(err) != r.err || s != string(wantB) || errStr(err2) != r.err {
 				res.Failures = append(res.Failures, failure{"Bytes/String " + in.mt + " " + in.in, nil, []string{fmt.Sprintf("Bytes=%q,%v String=%q,%v; plain call: %q,%q", b, err, s, err2, r.out, r.err)}, nil})
+			}
+		}
+		for _, kk := range kept {
+			n++
+			if string(kk.b) != kk.want {
+				res.Failures = append(res.Failures, failure{"Bytes result kept across later calls: " + kk.name, nil, []string{fmt.Sprintf("the slice returned by Bytes held %q; after later Bytes/String calls on the same registry it reads %q", kk.want, kk.b)}, nil})
 			}
 		}
 		res.Extra["bytes_string_calls"] = n
